@@ -493,6 +493,12 @@ func (s *Server) updateBlockHeader(ev UpdateExistedHeaderEvent) {
 		logging.Error("UpdateExistedHeader failed. Get UconValidators failed.", "Round", ev.Round, "RoundIndex", ev.RoundIndex, "err", err)
 		return
 	}
+	if ucValidators.RoundIndex != ev.RoundIndex {
+		// Votes sign (hash, round, round index): precommits collected at another round index of
+		// the same round (the same block can be carried over several indexes) cannot be merged
+		// into the stored set, the merged header would not verify.
+		return
+	}
 	logging.Info("UpdateExistedHeader before.", "Round", ev.Round, "Chamber", len(chamberAddrs),
 		"House", len(houseAddrs))
 
